@@ -47,7 +47,8 @@ Record c04_real := C04Real {
   e_obs_reported_path_is_left_dir : option bool;   (* --keep: the printed path is the directory that is left *)
   e_obs_layout_ok : option bool;       (* --keep: act tmp result internal present *)
   e_obs_result_files_exact : option bool;  (* --keep & act completed: result/ = {stdout, stderr, exitcode} with the action's output *)
-  e_obs_tmp_untouched : option bool }. (* --keep: tmp/ contains only what the case itself put there *)
+  e_obs_tmp_untouched : option bool;   (* --keep: tmp/ contains only what the case itself put there *)
+  e_obs_starts_in_act : option bool }. (* the first instruction of [setup] printed its cwd: it is <sandbox>/act *)
 
 Definition opt_true (o : option bool) := match o with Some b => b | None => true end.
 
@@ -57,6 +58,8 @@ Definition check_c04_real (c : c04_real) : bool * bool :=
     e_obs_cwd_restored c && e_obs_environ_same c && Nat.eqb (e_obs_dirs_left c) expected_left &&
     opt_true (e_obs_reported_path_is_left_dir c) && opt_true (e_obs_layout_ok c) &&
     opt_true (e_obs_result_files_exact c) && opt_true (e_obs_tmp_untouched c) &&
+    opt_true (e_obs_starts_in_act c) &&
+    (if e_expect_sds c then match e_obs_starts_in_act c with Some _ => true | None => false end else true) &&
     (* when something must be observable it is *)
     (if e_keep c && e_expect_sds c then
        match e_obs_reported_path_is_left_dir c, e_obs_layout_ok c with Some _, Some _ => true | _, _ => false end
@@ -67,7 +70,7 @@ Definition check_c04_real (c : c04_real) : bool * bool :=
 
 (** *** C03: a defective instruction inserted into an otherwise valid case with side effects in
     every phase. *)
-Inductive defect_stage := DefParse | DefActParse | DefSymbols | DefPreSds.
+Inductive defect_stage := DefParse | DefInclude | DefActParse | DefSymbols | DefPreSds.
 Record c03_case := C03Case {
   g_stage : defect_stage;               (* which stage must detect the defect (by its class) *)
   g_obs_exit : Z;
@@ -82,6 +85,7 @@ Definition model_source (st : defect_stage) : source :=
   let ok : instr := fun _ => BOk in
   match st with
   | DefParse => Src true true true false (TC [] [ok] ok [ok] [ok] [ok] TPass false)
+  | DefInclude => Src true true false true (TC [] [ok] ok [ok] [ok] [ok] TPass false)
   | DefActParse => Src true true true true (TC [] [ok] (fun k => if stepk_eqb k SActParse then BSyntax else BOk) [ok] [ok] [ok] TPass false)
   | DefSymbols => Src true true true true (TC [] [ok] ok [ok] [ok] [ok; bad SValSym] TPass false)
   | DefPreSds => Src true true true true (TC [] [ok] ok [ok] [ok] [ok; bad SValPre] TPass false)
@@ -97,3 +101,17 @@ Definition check_c03 (c : c03_case) : bool * bool :=
     (ident_eqb (g_obs_ident c) (IdFull SYNTAX_ERROR) || ident_eqb (g_obs_ident c) (IdAccess ACC_SYNTAX_ERROR) ||
      ident_eqb (g_obs_ident c) (IdAccess FILE_ACCESS_ERROR) || ident_eqb (g_obs_ident c) (IdFull VALIDATION_ERROR)) &&
     Nat.eqb (g_obs_markers c) 0 && Nat.eqb (g_obs_sandbox_dirs c) 0 ).
+
+(** *** the [symbol] command on a (valid or invalid) case with side effects in every phase *)
+Record c03_sym := C03Sym {
+  y_stage : option defect_stage;        (* None: a valid case *)
+  y_obs_markers : nat;
+  y_obs_sandbox_dirs : nat }.
+
+Definition valid_source : source :=
+  let ok : instr := fun _ => BOk in Src true true true true (TC [] [ok] ok [ok] [ok] [ok] TPass false).
+
+Definition check_c03_sym (c : c03_sym) : bool * bool :=
+  let (t, _) := symbol_command (match y_stage c with Some st => model_source st | None => valid_source end) in
+  ( Nat.eqb (length (filter (fun e => negb (is_validation_event e)) t)) (y_obs_markers c) && Nat.eqb (y_obs_sandbox_dirs c) 0,
+    Nat.eqb (y_obs_markers c) 0 && Nat.eqb (y_obs_sandbox_dirs c) 0 ).
